@@ -1124,3 +1124,62 @@ def gen_large(rng, tier):
 FAMILIES.append(Family("large", gen_large, impl, None, None, oracle,
                        lambda case, obs: "size%d" % len(case["msgs"][0][1][1][1][1]),
                        describe=lambda c: ["large:%dk" % (len(c["msgs"][0][1][1][1][1]) // 1000), c["kind"]], shard=2, case_timeout=60))
+
+
+# ---- the same dictionary object offered again after the caller changed it; two file destinations with
+# different json_default registered together (oracle only) ----
+def gen_reuse(rng, tier):
+    return [{"n": rng.randrange(2, 6), "mode": rng.choice(["binary", "text"]), "two": rng.random() < 0.5}
+            for _ in range(12 if tier == "quick" else 120)]
+
+
+def impl_reuse(case):
+    import io, json as _json
+    from eliot import FileDestination, log_message, _output
+    out = {}
+    # (a) one destination, one dict, mutated between offers
+    f = io.BytesIO() if case["mode"] == "binary" else io.StringIO()
+    fd = FileDestination(file=f)
+    d = {"task_uuid": "u", "task_level": [1], "timestamp": 1.0, "message_type": "progress", "n": 0}
+    for i in range(case["n"]):
+        d["n"] = i * 10
+        d["task_level"] = [i + 1]
+        fd(d)
+    data = f.getvalue()
+    text = data.decode("utf-8") if isinstance(data, bytes) else data
+    out["reused"] = [_json.loads(ln).get("n") for ln in text.splitlines()]
+    # (b) two file destinations with different json_default, fed by the same logging calls
+    if case["two"]:
+        dests = _output.Destinations()
+        _output.Logger._destinations = dests
+        fa, fb = io.BytesIO(), io.BytesIO()
+
+        def custom(o):
+            if isinstance(o, complex):
+                return "complex:%r/%r" % (o.real, o.imag)
+            if isinstance(o, set):
+                return {"set": sorted(o)}
+            raise TypeError("unsupported")
+        dests.add(FileDestination(file=fa), FileDestination(file=fb, json_default=custom))
+        log_message(message_type="rich", c=complex(1, 2), s={3})
+        la = _json.loads(fa.getvalue().decode().splitlines()[0])
+        lb = _json.loads(fb.getvalue().decode().splitlines()[0])
+        out["default_enc"] = [la.get("c"), la.get("s")]
+        out["custom_enc"] = [lb.get("c"), lb.get("s")]
+    return out
+
+
+def oracle_reuse(case, obs):
+    want = [i * 10 for i in range(case["n"])]
+    if obs["reused"] != want:
+        return "a dictionary offered again after the caller changed it was written as %r, expected %r" % (obs["reused"], want)
+    if case["two"]:
+        if obs["default_enc"] != [{"real": 1.0, "imag": 2.0}, [3]]:
+            return "destination with the default json_default wrote %r" % (obs["default_enc"],)
+        if obs["custom_enc"] != ["complex:1.0/2.0", {"set": [3]}]:
+            return "destination with the caller's json_default wrote %r (the caller's encoding must be used)" % (obs["custom_enc"],)
+    return None
+
+
+FAMILIES.append(Family("reuse", gen_reuse, impl_reuse, None, None, oracle_reuse,
+                       lambda case, obs: json.dumps(case), shard=6, case_timeout=30))
